@@ -269,6 +269,20 @@ def oracle_directed(DH):
             return f"out_degree(order={k}) does not count the edges of that order having the node in their tail"
         if DH.nodes.degree(order=k).asdict() != want_deg:
             return f"degree(order={k}) does not count the edges of that order incident to the node"
+    # sizes / orders restricted to the member nodes of a given degree: the degree of a node is |in U out| - the same number
+    # DH.nodes.degree reports - whichever side of the edge is counted
+    deg = {n: len(set(dm[n][0]) | set(dm[n][1])) for n in nodes}
+    for d in sorted(set(deg.values()) | {0, 1})[:5]:
+        cnt = lambda ms: sum(1 for n in ms if deg[n] == d)   # noqa: E731
+        want = {"tail_size": {e: cnt(de[e][0]) for e in edges}, "head_size": {e: cnt(de[e][1]) for e in edges},
+                "size": {e: cnt(set(de[e][0]) | set(de[e][1])) for e in edges}}
+        for nm in ("tail", "head"):
+            want[nm + "_order"] = {e: v - 1 for e, v in want[nm + "_size"].items()}
+        want["order"] = {e: v - 1 for e, v in want["size"].items()}
+        for nm, w in want.items():
+            got = getattr(DH.edges, nm)(degree=d).asdict()
+            if got != w:
+                return f"{nm}(degree={d}) = {got} does not count the member nodes of degree {d}: {w}"
     # weighted variants on a numeric edge attribute (missing values count 1)
     wts = {e: DH.edges[e].get("w", 1) for e in edges}
     if all(isinstance(x, (int, float)) and not isinstance(x, bool) for x in wts.values()):
